@@ -7,7 +7,8 @@ Oracle: every RunStart equals normalizer(ChainMap(call kwargs, open_run kwargs, 
 md)) on all user keys; over the whole case the scan_ids of the RunStarts actually emitted increase by one
 per opened run, RE.md['scan_id'] equals the last one; per-call keyword metadata still applies to runs opened
 after a resume and does not leak into the next call; a rejecting validator means no RunStart for that
-open_run and the scan_id... (the counter may already have advanced: only 'no RunStart' is asserted).
+open_run, and it is not an opened run: the next RunStart still follows the previous one by exactly one and
+RE.md['scan_id'] stays the number of the last run that was opened.
 The precedence rule itself is input-sampled (stated plainly: this part is not a simulation result).
 """
 
@@ -154,10 +155,10 @@ def check(res):
                         out.append(V("plan-identity", f"start[{k!r}] = {doc.get(k)!r}, expected {want!r} from {src}; persistent md has {persistent.get(k)!r}", key=k))
                 if tagged and doc.get("normalized") is not True:
                     out.append(V("normalizer-not-applied", "md_normalizer's tag is missing from the RunStart"))
-                if doc.get("scan_id") != last_scan + 1 and not reject_key:
+                if doc.get("scan_id") != last_scan + 1:
                     out.append(V("scan-id-step", f"scan_id {doc.get('scan_id')} follows {last_scan}"))
                 last_scan = doc.get("scan_id")
-        if inv.calls and inv.calls[-1].end is not None and not reject_key:
+        if inv.calls and inv.calls[-1].end is not None:
             sid = inv.calls[-1].end.d.get("scan_id")
             if last_scan and sid != last_scan:
                 out.append(V("persistent-scan-id", f"RE.md['scan_id'] = {sid} but the last RunStart has {last_scan}"))
